@@ -134,6 +134,20 @@ CLAIMED = {
         technique="TLA+ spec + TLC exhaustive histories / split plans, crash-point enumeration replayed into the implementation",
         ref="5/C24",
     ),
+    "C13": dict(
+        level="model_checking",
+        text="Mesh.tla states connectivity from first principles, element lookup on integer knot partitions, the Lagrange basis as exact "
+             "fractions and exact monomial integrals; TLC checks coverage, the shared-node property of neighbouring elements, partition of "
+             "unity, zero-sum derivatives and the Kronecker property on every case (2616 states). Every case is replayed into Mesh1D, "
+             "LagrangeKnotVector, LagrangeBasis, gauss and lobatto: integer arrays compared exactly, basis values against the exact fractions, "
+             "quadrature sums against the exact integrals; at shared knots the memoised Mesh1D.eval_basis is asked for both elements in both orders.",
+        note="Exhaustive over the property's stated parameter ranges for the discrete parts (degrees 1..5, element counts 1..12, dims 3/4/7, "
+             "continuous and discontinuous meshes); basis points are the rationals r/s with s in {1,2,3,5,6}; Gauss n<=7, Lobatto n<=7, all "
+             "admissible monomials, 12 intervals. Float tolerances 1e-11 (Gauss nodes are irrational). Second derivatives are not part of "
+             "the property (observation: LagrangeBasis.deriv(n=2) divides by the interval length once).",
+        technique="TLA+ exact-arithmetic spec + TLC exhaustive case enumeration, replay into the implementation",
+        ref="5/C13",
+    ),
 }
 
 NOT_APPLICABLE = {
